@@ -220,10 +220,15 @@ func (m *mutator) mutate(d *D, ctx int, top bool) *D {
 		c.N = mutInt("int", d.N, evenMasks)
 		c.S = QS(mutBytes(string(d.S), false))
 		c.F = mutFloat(d.F)
-	case "FmtFlags", "nil", "nilPtrInt", "nilMap", "nilSlice", "nilChan", "nilFunc", "chan", "func", "uptr", "NilPStringer", "NilPErr", "RValueZero":
+	case "FmtFlags", "nil", "nilPtrInt", "nilMap", "nilSlice", "nilChan", "nilFunc", "chan", "func", "uptr", "NilPStringer", "NilPErr", "RValueZero", "SNils", "NFunc", "NChan":
 	case "RValueField":
 		c.S = QS(mutBytes(string(d.S), false))
 		c.N = mutInt("int", d.N, evenMasks)
+	case "SArr":
+		c.N = mutInt("int", d.N, stdMasks)
+		c.S = QS(mutBytes(string(d.S), false))
+	case "iarr", "ptrptr":
+		c.N = mutInt("int", d.N, stdMasks)
 	case "SUnexp":
 		c.N = mutInt("int", d.N, stdMasks)
 		c.S = QS(mutBytes(string(d.S), false))
